@@ -153,7 +153,7 @@ def validate(chk: Check, label, traces, infos, shards):
 def mini(chk: Check, alpha, maxtail, flagset, depth_deferred, depth_eager, shards, split=False):
     I = impl()
     consts = ("CONSTANTS Alpha = %s MaxTail = %d FlagSet = %s Offs = {0, 1} DepthDeferred = %d DepthEager = %d "
-              "DropsRest = FALSE DropsRawOnFail = FALSE MBT = %%s\n" % (alpha, maxtail, flagset, depth_deferred, depth_eager))
+              "DropsRest = FALSE DropsRawOnFail = FALSE RunLens = %s MBT = %%s\n" % (alpha, maxtail, flagset, depth_deferred, depth_eager, c01.RUN_LENS))
     import concurrent.futures as cf
 
     def one(i):
@@ -276,7 +276,7 @@ HISTORIES = [("R",), ("H", "R"), ("B", "R"), ("H", "B", "R"), ("B", "H", "R"), (
              ("B", "R", "R"), ("R", "H", "B", "R")]
 
 
-def real(chk: Check, per_template, shards, long_zero=4, many_blocks=4):
+def real(chk: Check, per_template, shards, long_zero=4, many_blocks=4, zero_rounds=1):
     I = impl()
     rng = chk.rng
     pairs = c01.real_shapes(chk)
@@ -285,12 +285,13 @@ def real(chk: Check, per_template, shards, long_zero=4, many_blocks=4):
     ser0 = codecs["eager"][0]
     traces, infos = [], []
     stats = {}
+    zero_runs_seen = set()
 
     def note(k):
         stats[k] = stats.get(k, 0) + 1
 
-    def one(shape, tmpl, maxlen=12, force_style=None, counts=(0, 1, 1, 2), kinds=None, big_count=0):
-        hdr, bp, ty, _ = c01.gen_message(I, rng, shape, tmpl, counts=counts, maxlen=maxlen,
+    def one(shape, tmpl, maxlen=12, force_style=None, counts=(0, 1, 1, 2), kinds=None, big_count=0, force=None, tag=None):
+        hdr, bp, ty, _ = c01.gen_message(I, rng, shape, tmpl, counts=counts, maxlen=maxlen, force=force,
                                          hdr=dict(c01.gen_header(rng, rich=False), flags=0, acks=[]))
         kind = rng.choice(kinds or ["pristine", "pristine", "truncate", "extend", "drop-blocks", "flip", "truncate-z"])
         if force_style:
@@ -340,7 +341,7 @@ def real(chk: Check, per_template, shards, long_zero=4, many_blocks=4):
             tail = b"".join(a.to_bytes(4, "big") for a in reversed(acks)) + bytes([len(acks)])
         data = bytes([flags]) + base[1:6] + body + tail
         mode = rng.choice(["eager", "deferred", "deferred"])
-        ops = rng.choice(HISTORIES)
+        ops = rng.choice(HISTORIES if not force else [h for h in HISTORIES if "B" in h])
         ser, des, _ = codecs[mode]
         looks = BODY_LOOKS[:]
         rng.shuffle(looks)
@@ -352,7 +353,9 @@ def real(chk: Check, per_template, shards, long_zero=4, many_blocks=4):
             note("header-refused")       # outside the quantifier (datagrams accepted by the header parser)
             return
         traces.append(evs)
-        infos.append({"template": shape["name"], "mutation": kind, "zero-coding": style, "ops": list(ops)})
+        infos.append({"template": shape["name"], "mutation": tag or kind, "zero-coding": style, "ops": list(ops)})
+        if force:
+            zero_runs_seen.update(c01.max_zero_runs(base[6:]))
         chk.nontrivial(("real", shape["name"], kind, style, mode, ops))
         note(kind + "/" + style)
     for shape, tmpl in pairs:
@@ -370,6 +373,17 @@ def real(chk: Check, per_template, shards, long_zero=4, many_blocks=4):
             one(shape, tmpl, force_style=["wrap", "split", "canonical", "wrap"][k % 4])
         finally:
             c01.gen_bytes_field = saved
+    # zero runs around the 255 boundaries of zero-coding at the start / in the middle / at the end of a payload (of the
+    # body when the field is its last), canonically zero-coded by the harness, parsed, re-encoded
+    sites = c01.zero_run_sites(pairs)
+    last_sites = [x for x in sites if x[3]] or sites
+    for n, pos in [(n, pos) for n in c01.ZERO_RUNS for pos in ("start", "middle", "end")] * zero_rounds:
+        shape, tmpl, site, _ = rng.choice(last_sites if pos == "end" else sites)
+        one(shape, tmpl, maxlen=6, counts=(1,), force_style="canonical", force={site: c01.zero_run_payload(n, pos)},
+            tag="zero-run-%d-%s" % (n, pos))
+    chk.cov["real_body_zero_runs_seen"] = sorted(x for x in zero_runs_seen if x >= 250)
+    if not chk.violations and not chk.known_hits and not {255, 510, 765} <= zero_runs_seen:
+        raise MachineryError("vacuous run: no zero-coded real body with a maximal zero run of 255, 510 and 765 bytes")
     # large repeat counts (count byte >= 128) on templates with small Variable blocks
     small_var = [(s, t) for s, t in pairs if s["blocks"] and s["blocks"][-1]["kind"] == "Variable" and c01.inst_size(s["blocks"][-1]) <= 8
                  and all(v["t"] != "Variable" for v in s["blocks"][-1]["vars"])
@@ -403,5 +417,5 @@ def run(chk: Check):
         real(chk, 2, shards=6)
     else:
         mini(chk, "{0, 1, 255}", 6, "{0, 128, 16, 144}", 3, 2, shards=14, split=True)
-        real(chk, 30, shards=14, long_zero=24, many_blocks=40)
+        real(chk, 30, shards=14, long_zero=24, many_blocks=40, zero_rounds=6)
     chk.cov["exhaustive"] = True
